@@ -132,8 +132,8 @@ def r3_zero_window(ctx):
     r.check(bool(gt) and all(pf.dominated_by_edges(a, gt) for (a, b) in edges), 'zero-window|only-nonempty', pf.file, 'empty DATA frames (e.g. a bare END_STREAM) are still sent on a zero window')
 
 
-def r5_settings_delta(ctx):
-    r = ctx.rule('C02.R5', 'PASS', 'a SETTINGS_INITIAL_WINDOW_SIZE delta reaches every stream and is remembered')
+def r5_settings_delta(ctx, rid='C02.R5'):
+    r = ctx.rule(rid, 'PASS', 'a SETTINGS_INITIAL_WINDOW_SIZE delta reaches every stream and is remembered')
     F = ctx.facts
     f = r.fn(P + 'send::Send::apply_remote_settings')
     if not f:
@@ -216,8 +216,8 @@ def sw_is_tracing(f, bi):
     return bool(t.get('exp')) and ('trace' in t['exp'] or 'debug' in t['exp'])
 
 
-def r5b_same_streams(ctx):
-    r = ctx.rule('C02.R5b', 'PAIR', 'a window decrease and a window increase apply to the same set of streams (sibling skip guards agree)')
+def r5b_same_streams(ctx, rid='C02.R5b'):
+    r = ctx.rule(rid, 'PAIR', 'a window decrease and a window increase apply to the same set of streams (sibling skip guards agree)')
     F = ctx.facts
     dec = [g for n, g in F.fns.items() if n.startswith(P + 'send::Send::apply_remote_settings::{closure') and g.calls_to(FC + 'dec_send_window')]
     inc = F.fn(PRIO + '::recv_stream_window_update')
